@@ -45,6 +45,55 @@ def mustPanic (L R : Arr) (fl fr fo : Option Nat) : Bool :=
 /-- number of decision nodes of a (result) array -/
 def decisionNodes (A : Arr) : Nat := A.size - 2
 
+/-- pseudo-random valuations for diagrams too wide for a full truth table (SplitMix-style mixing of the index) -/
+def sampleVal (n k : Nat) : Nat → Bool := fun j =>
+  let z := (k + 1) * 0x9E3779B97F4A7C15 % 2 ^ 64
+  let z := (z ^^^ (z >>> 29)) * 0xBF58476D1CE4E5B9 % 2 ^ 64
+  let z := (z ^^^ (z >>> 32))
+  j < n && (z >>> (j % 60)) % 2 == 1
+
+def samples : Nat := 4096
+
+/-- `v` with the bit of the flip variable inverted -/
+def invV (f : Option Nat) (v : Nat → Bool) : Nat → Bool :=
+  match f with
+  | none => v
+  | some x => fun j => if j == x then !(v j) else v j
+
+/-- `X(v) = c (L(u with fl inverted)) (R(u with fr inverted))`, `u = v with fo inverted`: on every valuation for
+    `n ≤ maxTT`, on `samples` pseudo-random valuations otherwise -/
+def checkPointwise (n : Nat) (X L R : Arr) (c : Bool → Bool → Bool) (fl fr fo : Option Nat) : Option String :=
+  let ok := fun (v : Nat → Bool) =>
+    let u := invV fo v
+    evalArr X v == c (evalArr L (invV fl u)) (evalArr R (invV fr u))
+  if n ≤ maxTT then
+    (if (List.range (2 ^ n)).all fun i => ok (valOfIndex n i) then none else some "limit:result-not-pointwise")
+  else
+    (if (List.range samples).all fun k => ok (sampleVal n k) then none else some "limit:result-not-pointwise(sampled)")
+
+/-- cofactor of pointer `p` on variable `d` -/
+def cof (A : Arr) (n p d : Nat) (b : Bool) : Nat :=
+  if varOf A n p == d then (let nd := nodeAt A p; if b then nd.high else nd.low) else p
+
+/-- exact check, independent of the apply model, that `X` denotes `c L R` (no flips): side-by-side walk of the
+    three diagrams down to terminal triples, each triple visited once -/
+def equivWalk (X L R : Arr) (n : Nat) (c : Bool → Bool → Bool) :
+    Nat → Nat → Nat → Nat → Std.HashSet (Nat × Nat × Nat) → Bool × Std.HashSet (Nat × Nat × Nat)
+  | 0, _, _, _, seen => (false, seen)
+  | fuel + 1, x, l, r, seen =>
+    if x < 2 && l < 2 && r < 2 then ((x == 1) == c (l == 1) (r == 1), seen)
+    else if seen.contains (x, l, r) then (true, seen)
+    else
+      let d := min (varOf X n x) (min (varOf L n l) (varOf R n r))
+      if d ≥ n then (false, seen) else
+      let r1 := equivWalk X L R n c fuel (cof X n x d true) (cof L n l d true) (cof R n r d true) (seen.insert (x, l, r))
+      if !r1.1 then r1
+      else equivWalk X L R n c fuel (cof X n x d false) (cof L n l d false) (cof R n r d false) r1.2
+
+def checkExact (X L R : Arr) (c : Bool → Bool → Bool) : Option String :=
+  let n := numVars L
+  if (equivWalk X L R n c (n + 2) (root X) (root L) (root R) {}).1 then none else some "limit:result-not-the-operator(exact-walk)"
+
 def limCase (table conn l r fl fr fo limit : String) (obs : List String) (tag : String) : Verdict :=
   match obs, conn.toNat?, parseArr? l, parseArr? r, parseOptNat? fl, parseOptNat? fr, parseOptNat? fo, limit.toNat? with
   | [limited, unres], some c, some L, some R, some fl, some fr, some fo, some lim =>
@@ -57,17 +106,25 @@ def limCase (table conn l r fl fr fo limit : String) (obs : List String) (tag : 
       else match parseArr? unres with
         | none => some ("unrestricted-outcome:" ++ unres)
         | some U =>
-          if limited == "none" then (if U.size ≤ lim then some "limit:none-although-result-fits" else none)
+          let n := numVars L
+          let noflip := fl.isNone && fr.isNone && fo.isNone
+          -- wide operands: the unrestricted result itself is checked exactly (no flips) and on sampled valuations
+          let wide := if n > maxTT then firstFail [if noflip then checkExact U L R (conn2 c) else none,
+            checkPointwise n U L R (conn2 c) fl fr fo] else none
+          if limited == "none" then firstFail [if U.size ≤ lim then some "limit:none-although-result-fits" else none, wide]
           else match parseArr? limited with
             | none => some ("limited-outcome:" ++ limited)
             | some X => firstFail [if U.size ≤ lim then none else some "limit:some-although-result-too-large",
-                if X == U then none else some "limit:not-identical"]
+                if X == U then none else some "limit:not-identical",
+                checkPointwise n X L R (conn2 c) fl fr fo,
+                if n > maxTT && noflip then checkExact X L R (conn2 c) else none, wide]
     let usz := (parseArr? unres).map (·.size) |>.getD 0
     { agree := model == limited, model, fail,
       nontrivial := usz > 2 && lim + 2 ≥ usz,
       tags := [tag, if limited == "none" then "none" else if limited == "panic" then "panic" else "some",
         if lim == usz then "lim=size" else if lim + 1 == usz then "lim=size-1" else if lim == 0 then "lim=0" else "lim-other",
-        if usz == 0 then "res-panic" else if usz == 1 then "res-false" else if usz == 2 then "res-true" else "res-nonconst"] }
+        if usz == 0 then "res-panic" else if usz == 1 then "res-false" else if usz == 2 then "res-true" else "res-nonconst"] ++
+        (if L.size > 65536 || R.size > 65536 then ["big-operand"] else []) }
   | _, _, _, _, _, _, _, _ => Verdict.bad "args"
 
 def dryCase (table conn l r fl fr fo limit : String) (obs : List String) (tag : String) : Verdict :=
@@ -96,12 +153,9 @@ def dryCase (table conn l r fl fr fo limit : String) (obs : List String) (tag : 
       nontrivial := cnt > 0,
       tags := [tag, if dry == "none" then "none" else if dry == "panic" then "panic" else "some",
         if lim == cnt then "lim=count" else if lim + 1 == cnt then "lim=count-1" else "lim-other",
-        if cnt > ((parseArr? unres).map decisionNodes |>.getD 0) then "count>nodes" else "count=nodes"] }
+        if cnt > ((parseArr? unres).map decisionNodes |>.getD 0) then "count>nodes" else "count=nodes"] ++
+        (if L.size > 65536 || R.size > 65536 then ["big-operand"] else []) }
   | _, _, _, _, _, _, _, _ => Verdict.bad "args"
-
-/-- cofactor of pointer `p` on variable `d` -/
-def cof (A : Arr) (n p d : Nat) (b : Bool) : Nat :=
-  if varOf A n p == d then (let nd := nodeAt A p; if b then nd.high else nd.low) else p
 
 /-- containment oracle for more than `maxTT` variables, independent of the apply model: every path of `A` to
     the one-terminal stays inside `B`, i.e. the side-by-side walk never reaches the pair (true, false) -/
@@ -149,7 +203,8 @@ def handle (key : String) (ins obs : List String) : Verdict :=
       { agree := model == res, model,
         fail := if res == expected then none else some ("cmp_implies:expected-" ++ expected),
         nontrivial := A.size > 2 && B.size > 2 && numVars B == n,
-        tags := ["cmp", res, if numVars B != n then "vars-differ" else "vars-equal", if n > maxTT then "n>12" else if n ≥ 6 then "n6-12" else "n<6"] }
+        tags := ["cmp", res, if numVars B != n then "vars-differ" else "vars-equal", if n > maxTT then "n>12" else if n ≥ 6 then "n6-12" else "n<6"] ++
+          (if A.size > 65536 || B.size > 65536 then ["big-operand"] else []) }
     | _, _, _ => Verdict.bad "args"
   | _, _ => Verdict.bad ("key " ++ key)
 
